@@ -46,7 +46,8 @@ class DiskAddFile:
     max_paths = 600
 
     def cells(self, tier):
-        return [{"id": "fn/add_file/ML", "kind": "ML"}, {"id": "fn/add_file/BASIC", "kind": "BASIC"}, {"id": "fn/add_file/ASCII", "kind": "ASCII"}]
+        from lemmas.disk import KINDS
+        return [{"id": "fn/add_file/%s" % k, "kind": k} for k in KINDS]
 
     def probes(self, cell):
         for L in (0, 1, 2289, 2294, 2304, 4598, 5000, 7000):
@@ -68,8 +69,9 @@ class DiskAddFile:
         F = Files(env)
         kind = cell["kind"]
         L = env.holes.get("L", 0)
-        ftype, dtype = {"ML": (2, 0), "BASIC": (0, 0), "ASCII": (1, 0xFF)}[kind]
-        pre_len, post_len = {"ML": (5, 5), "BASIC": (3, 0), "ASCII": (0, 0)}[kind]
+        from lemmas.disk import KINDS, AMBLE
+        ftype, dtype = KINDS[kind]
+        pre_len, post_len = AMBLE[kind]
         data = [(5 * i + 1) % 253 for i in range(L)]
         # a consistent, partly used image: one earlier file on scattered granules
         old = ("OLD", "BIN", 2, 0, 0x2000, 0x2002, [9] * 5000)
@@ -109,7 +111,7 @@ class DiskAddFile:
                 o, n = fs
                 if o["data"] != old[6] or o["load"] != old[4]:
                     why = "old-file-changed"
-                elif n["data"] != data or n["name"].strip() != "NEWFILE" or (kind == "ML" and (n["load"], n["exec"]) != (0x1234, 0x5678)):
+                elif n["data"] != data or n["name"].strip() != "NEWFILE" or (ftype == 2 and (n["load"], n["exec"]) != (0x1234, 0x5678)):
                     why = "new-file-wrong"
         except db.DiskFormatError as e:
             import re
@@ -120,8 +122,9 @@ class DiskAddFile:
     def symbolic(self, env, cell):
         F = Files(env)
         kind = cell["kind"]
-        ftype, dtype = {"ML": (2, 0), "BASIC": (0, 0), "ASCII": (1, 0xFF)}[kind]
-        pl, postlen = {"ML": (5, 5), "BASIC": (3, 0), "ASCII": (0, 0)}[kind]
+        from lemmas.disk import KINDS, AMBLE
+        ftype, dtype = KINDS[kind]
+        pl, postlen = AMBLE[kind]
         p = cur()
         L = env.hole_int("L", 0, 65535)
         DA = z3.Array("h_dataarr", z3.IntSort(), z3.IntSort())
